@@ -18,6 +18,7 @@ MUTATORS = [
     (5, "store_in_collection_with_metadata", "collection"),
     (6, "delete_from_collection", "collection"),
     (7, "delete_collection", "name"),
+    (8, "batch_store_embeddings", "<every element through store_embedding>"),
 ]
 
 
@@ -39,6 +40,13 @@ def generate(repo):
         name = "invalidates.%s" % fn
         try:
             _, body = find_fn(impl, fn)
+            if fn == "batch_store_embeddings":
+                # elements may only be written by calling the invalidating single store; any other writer
+                # (self.store.put / another self.<fn> that is not a known read-only helper) breaks the rule
+                calls = set(re.findall(r"self\s*\.\s*(\w+)\s*\(", body))
+                inv[mid] = ("store_embedding" in calls) and calls <= {"store_embedding"} and not re.search(r"self\s*\.\s*store\s*\.\s*(put|delete)", body)
+                items[name] = "translated"
+                continue
             # the function invalidates iff a call `self.invalidate_hnsw_cache(<its collection>)` is on
             # its straight-line success path: present, and not inside a closure / only in an early return
             calls = re.findall(r"self\s*\.\s*invalidate_hnsw_cache\s*\(\s*([^)]*?)\s*\)", body)
